@@ -71,6 +71,15 @@ def cases():
         pass
     u.sample(300)
     yield 'Union[{} members]'.format(len(u.bounds)), Union, u
+    # non-default network settings and a periodic index set that is not sorted
+    pts4 = np.hstack([pts2, rngp.random((len(pts2), 1))])
+    b = NautilusBound.compute(
+        pts4, log_l, np.median(log_l), np.log(0.01), n_networks=1,
+        periodic=np.array([3, 0]),
+        neural_network_kwargs=dict(activation='tanh',
+                                   hidden_layer_sizes=(20, 10)), rng=r())
+    b.sample(120)
+    yield 'NautilusBound[periodic=[3,0],tanh network]', NautilusBound, b
     for periodic in (None, np.array([0])):
         for nn in (0, 1):
             b = NautilusBound.compute(
@@ -90,7 +99,9 @@ with tempfile.TemporaryDirectory() as d:
             g = np.random.default_rng(99)
             with h5py.File(path, 'r') as f:
                 b2 = cls.read(f['b'], rng=g)
-            pr = probe[:, :b.n_dim] if hasattr(b, 'n_dim') else probe
+            nd_ = getattr(b, 'n_dim', 3)
+            pr = probe[:, :nd_] if nd_ <= 3 else np.hstack(
+                [probe, rngp.random((len(probe), nd_ - 3))])
             # also probe a margin around the unit cube
             pr = np.vstack([pr, pr * 1.4 - 0.2])
             if not np.array_equal(b.contains(pr), b2.contains(pr)):
